@@ -101,6 +101,11 @@ class WebBrowser(Application, discriminator="web-browser"):
         # reset latest response
         self.latest_response = HttpResponsePacket(status_code=HttpStatusCode.NOT_FOUND)
 
+        if not url:
+            # neither a url argument nor a configured target_url: there is nothing to request
+            self.sys_log.warning(f"{self.name}: No URL to request")
+            return False
+
         try:
             parsed_url = urlparse(url)
         except Exception:
